@@ -644,36 +644,27 @@ func c10R4(r *Report) {
 				}
 			}
 		}
+		// a count: what ReadAt returned, or a sum of such counts (n += r.readMore(a[n:], …)); counts are not negative,
+		// so a non-zero sum means that something was read
 		isCount := func(v ssa.Value) bool {
-			var rec func(v ssa.Value, d int) bool
-			rec = func(v ssa.Value, d int) bool {
-				v = stripIntConv(v)
-				if cv, ok := v.(*ssa.Convert); ok {
-					v = cv.X
-				}
-				switch x := v.(type) {
-				case *ssa.Extract:
-					if c, ok := x.Tuple.(*ssa.Call); ok && x.Index == 0 {
-						for _, ra := range readAts {
-							if c == ra {
-								return true
-							}
-						}
-					}
-				case *ssa.Phi:
-					if d > 3 {
-						return false
-					}
-					for _, e := range x.Edges {
-						if !rec(e, d+1) {
-							return false
-						}
-					}
-					return len(x.Edges) > 0
-				}
+			if _, isC := stripIntConv(v).(*ssa.Const); isC {
 				return false
 			}
-			return rec(v, 0)
+			return sumsOnlyOf(stripIntConv(v), func(x ssa.Value) bool {
+				if k, isk := constInt(x); isk && k == 0 {
+					return true
+				}
+				ex, ok := x.(*ssa.Extract)
+				if !ok || ex.Index != 0 {
+					return false
+				}
+				c, ok := ex.Tuple.(*ssa.Call)
+				if !ok {
+					return false
+				}
+				cal := c.Call.StaticCallee()
+				return cal != nil && cal.Name() == "ReadAt" && relPkg(cal) == "tor/piece"
+			})
 		}
 		isReadErr := func(v ssa.Value) bool {
 			var rec func(v ssa.Value, d int) bool
